@@ -252,6 +252,31 @@ def nat_bound(ag) -> int:
     return max([b(X) for X in nts] + [1])
 
 
+def add_reversed_twin(rng, ag, value_cap=1 << 18):
+    """A rule gets a second edge on the SAME two nodes in the OPPOSITE order (f(a,b) ... g(b,a)), with a
+    fresh terminal g of the reversed type and weights that are not symmetric: anything keyed by the unordered
+    node set of an edge (a cache, a sort) then confuses the axes of the two edges.  Returns ag unchanged when no
+    rule has a binary edge on two distinct nodes or the value cap would be exceeded."""
+    import copy
+    cands = [(ri, ei) for ri, r in enumerate(ag['rules']) for ei, e in enumerate(r['edges'])
+             if len(e['att']) == 2 and e['att'][0] != e['att'][1]]
+    if not cands:
+        return ag
+    ri, ei = rng.choice(cands)
+    b = copy.deepcopy(ag)
+    r = b['rules'][ri]
+    e = r['edges'][ei]
+    name = 'g'
+    assert name not in b['els']
+    b['els'][name] = {'t': True, 'type': [r['nodes'][e['att'][1] - 1], r['nodes'][e['att'][0] - 1]]}
+    b['elorder'].insert(rng.randrange(len(b['elorder']) + 1), name)
+    n = numel(shape_of(b, name))
+    b['w'][name] = [rng.choice([1, 2, 3, 0]) if k else 2 for k in range(n)]
+    b['wmp'][name] = [rng.randint(-3, 3) for _ in range(n)]
+    r['edges'].insert(rng.randrange(len(r['edges']) + 1), {'lab': name, 'att': [e['att'][1], e['att'][0]]})
+    return b if nat_bound(b) <= value_cap else ag
+
+
 # --------------------------------------------------------------------------
 # building the real objects
 
